@@ -4,7 +4,7 @@ from __future__ import annotations
 import random
 from fractions import Fraction as F
 
-from ..cases import Case, run_cases, Q, V, M, MODE
+from ..cases import Case, run_cases, Q, U, V, M, OP, MODE
 from ..ctl import num, val, is_exc, dec_str, EXACT_TYPES
 from ..models import rounding as RM
 from ..models import si_table as SI
@@ -164,8 +164,10 @@ def gen_round(rng, chk):
 
 
 def gen_reject(rng, chk):
-    kind = rng.choice(["othertype", "noref-temp", "noref-money"])
+    kind = rng.choice(["othertype", "noref-temp", "noref-money",
+                       "noref-money-two-currencies", "noref-user-unit"])
     zero = rng.random() < 0.35
+    pre = []
     if kind == "othertype":
         t1, t2 = rng.sample(SI.LINEAR_TYPES, 2)
         a = Q(num(F(0) if zero else F(rng.randint(1, 99), 4),
@@ -175,6 +177,26 @@ def gen_reject(rng, chk):
         a = Q(num(F(0) if zero else F(215, 10)),
               rng.choice(["°C", "K", "°F"]))
         b = Q(num(F(1, 2)), rng.choice(["°C", "K", "°F"]))
+    elif kind == "noref-money-two-currencies":
+        # quantity and quantum in different units that nothing converts
+        # (no money converter is active): still a TypeError, the type has no
+        # reference unit
+        MON = ["g", "quantity.money:Money"]
+        a = ["c", MON, [num(F(0) if zero else F(1234, 100)),
+                        ["m", MON, "register_currency", [["s", "EUR"]]]]]
+        b = ["c", MON, [num(F(5, 100)),
+                        ["m", MON, "register_currency", [["s", "USD"]]]]]
+    elif kind == "noref-user-unit":
+        # a user's multiple of the kelvin: no converter row names it
+        TEMP = ["g", "quantity.predefined:Temperature"]
+        # declared once per interpreter; a repeated attempt fails harmlessly
+        pre = [{"e": M(TEMP, "new_unit", ["s", "mK13"], ["s", "Millikelvin"],
+                       OP("*", ["D", "0.001"], U("K")))}]
+        a = Q(num(F(0) if zero else F(215, 10)), rng.choice(["°C", "K"]))
+        b = Q(num(F(1, 2)), "mK13")
+        if rng.random() < 0.5:
+            a, b = Q(num(F(0) if zero else F(215, 10)), "mK13"), \
+                Q(num(F(1, 2)), rng.choice(["°C", "K", "°F"]))
     else:
         a = ["c", ["g", "quantity.money:Money"],
              [num(F(0) if zero else F(1234, 100)),
@@ -183,8 +205,9 @@ def gen_reject(rng, chk):
         b = ["c", ["g", "quantity.money:Money"],
              [num(F(5, 100)), ["m", ["g", "quantity.money:Money"],
                                "register_currency", [["s", "EUR"]]]]]
-    steps = [{"id": "q", "k": "q", "e": a}, {"id": "g", "k": "g", "e": b},
-             {"k": "r", "e": M(V("q"), "quantize", V("g"))}]
+    steps = pre + [{"id": "q", "k": "q", "e": a},
+                   {"id": "g", "k": "g", "e": b},
+                   {"k": "r", "e": M(V("q"), "quantize", V("g"))}]
     info = dict(kind=kind)
 
     def judge(obs, rec, case):
@@ -225,6 +248,8 @@ def run(chk, R, tier, seed):
     chk.require("reject|zero amount")
     chk.require("reject|noref-temp")
     chk.require("reject|noref-money")
+    chk.require("reject|noref-money-two-currencies")
+    chk.require("reject|noref-user-unit")
     chk.extra["rounding_model_selfcheck_cases"] = RM.SELFCHECK_CASES
     for _ in range(rounds):
         cases = []
